@@ -54,7 +54,8 @@ impl<R: BufRead> LiteralDataReader<R> {
         match self {
             Self::Done { buffer, .. } => !buffer.has_remaining(),
             Self::Body { .. } => false,
-            Self::Error => panic!("LiteralDataReader errored"),
+            // not done: the next read reports the error state
+            Self::Error => false,
         }
     }
 
